@@ -74,6 +74,12 @@ fn extended_alphabet(thorough: bool) -> Vec<V> {
     v.push(V::map(&[("a", V::s("x"))]));
     v.push(V::Map(vec![(K::U64(1), V::s("x"))]));
     v.push(V::Map(vec![(K::I128(1), V::s("y"))]));
+    // maps that differ in a BOOL key only (seeded change C16-9: bool keys compared Equal, so the map
+    // order used by `unique` could not tell these apart)
+    v.push(V::Map(vec![(K::Bool(true), V::I64(1))]));
+    v.push(V::Map(vec![(K::Bool(false), V::I64(1))]));
+    v.push(V::Arr(vec![V::Map(vec![(K::Bool(true), V::I64(1))])]));
+    v.push(V::Arr(vec![V::Map(vec![(K::Bool(false), V::I64(1))])]));
     // more than one integer that only u128 can hold (two such values must still differ)
     v.push(V::U128(1u128 << 127));
     v.push(V::U128(u128::MAX - 1));
